@@ -3,6 +3,7 @@ import AslProofs.Rc
 import AslProofs.RcMutex
 import Gen.ShapesGen
 import AslProofs.RcCompile3
+import AslProofs.RcNest
 /-!
 # C12 — Shared handles and atomic counters are correct under every thread interleaving
 
@@ -222,5 +223,75 @@ example : (run (mkCfg 1 [{ prog := [Step.inc 0, Step.dec 0, Step.dec 0], held :=
 
 /-- a shape that releases before acquiring on self-assignment (SmartObject before its repair) is rejected -/
 example : wfProg [5] [Step.dec 5, Step.inc 5] = false := by decide
+
+
+/-! ## handles stored inside shared objects (`AslModel/RcNest.lean`): the assignment takes its source first -/
+
+section Nested
+open AslModel.RcNest
+
+/-- events of a recorded shape as increments (`true`) and decrements / releases (`false`) -/
+def evKinds (evs : List Ev) : List Bool := evs.filterMap fun e => match e with
+  | Ev.inc _ _ => some true
+  | Ev.dec _ _ => some false
+  | Ev.free _ _ => some false
+  | Ev.unknown => none
+
+/-- **G obligation.** Assigning a handle to a different object over the *last* handle of an object — recorded
+    from the current library for Array, Map, HashMap, Shared and SmartObject — increments every counter of
+    the source before it decrements or releases anything of the destination. -/
+theorem assignment_acquires_first : ∀ k ∈ kinds, incsFirst (evKinds k.assignDiffLast) = true ∧
+    incsFirst (evKinds k.assignDiff) = true := by decide
+
+/-- **nested_assign_safe.**  In any heap of reference-counted objects that contain handles (counts equal to
+    the number of handles, nothing pointing at released storage), `*dst = *src` in the acquire-first order
+    touches no released storage and re-establishes the invariant — for any two handle places in live
+    storage, in particular when the source is stored inside the object the destination releases
+    (`a = a[0].kids`, `p = p->next`, `m = m[k].children`). -/
+theorem nested_assign_safe (h : Heap) (dst src : Loc) (hI : Inv h []) (hb : h.bad = false)
+    (hd : locLive h dst = true) (hs : locLive h src = true) :
+    (assign true h dst src).bad = false ∧ Inv (assign true h dst src) [] :=
+  AslProofs.RcNest.assign_acquire_first_safe h dst src hI hb hd hs
+
+/-- …and the program variable assigned to then holds the source's object, which is alive. -/
+theorem nested_assign_result (h : Heap) (i : Nat) (src : Loc) (s : Nat) (hI : Inv h []) (hb : h.bad = false)
+    (hd : locLive h (Loc.root i) = true) (hs : readLoc h src = some s) (hne : Loc.root i ≠ src) :
+    (assign true h (Loc.root i) src).roots = h.roots.set i s ∧ aliveAt (assign true h (Loc.root i) src) s = true :=
+  AslProofs.RcNest.assign_acquire_first_result h i src s hI hb hd hs hne
+
+/-- **nested_programs_safe.**  Every heap the harness can build (any DAG or graph of blocks whose handles point
+    at described blocks) satisfies the invariant, and every sequence of assignments between places reached
+    by paths, and of variables going out of scope, keeps it and never touches released storage. -/
+theorem nested_programs_safe (descr : List (List Nat)) (roots : List Nat) (hw : wfDescr descr roots = true)
+    (ops : List Op) :
+    (runOps true (build descr roots) ops).bad = false ∧ Inv (runOps true (build descr roots) ops) [] := by
+  obtain ⟨a, b, _⟩ := AslProofs.RcNest.build_inv descr roots hw
+  exact AslProofs.RcNest.runOps_safe ops _ a b
+
+/-- the invariant read at one object: it is alive exactly while some handle — in a program variable or stored
+    in a live object — points at it, and then its count is the number of those handles -/
+theorem nested_alive_iff_handle (h : Heap) (hI : Inv h []) (o : Nat) :
+    (aliveAt h o = true → rcAt h o = handles h [] o) ∧ (aliveAt h o = false → handles h [] o = 0) := by
+  have := hI o
+  constructor
+  · intro ha; rw [ha] at this; simpa using this.symm
+  · intro ha; rw [ha] at this; simpa using this
+
+/-- the order the containers had before their repair (release, then read the source): `a = a[0].kids` on a
+    one-element tree reads the source handle from the block just released.  (Reproduced on the real
+    library under ASan: known_findings.txt, 46697f8 / f87e2b1.) -/
+theorem release_first_unsafe :
+    (assign false (build [[1], []] [0]) (Loc.root 0) (Loc.inObj 0 0)).bad = true := by decide
+
+/-- the same assignment in the current order: no error, the variable holds the child block, the parent block
+    is released and the child is alive with exactly one handle -/
+example : let h := assign true (build [[1], []] [0]) (Loc.root 0) (Loc.inObj 0 0)
+    h.bad = false ∧ h.roots = [1] ∧ aliveAt h 0 = false ∧ aliveAt h 1 = true ∧ rcAt h 1 = 1 := by decide
+
+/-- non-vacuity: a built heap with sharing meets the hypotheses, and a path through a shared block resolves -/
+example : wfDescr [[1, 2], [2], []] [0, 1] = true ∧ invB (build [[1, 2], [2], []] [0, 1]) [] 4 = true ∧
+    resolve (build [[1, 2], [2], []] [0, 1]) ⟨0, [0, 0]⟩ = some (Loc.inObj 1 0) := by decide
+
+end Nested
 
 end C12
